@@ -48,11 +48,13 @@ static void on_deadlock(const char* dump) { pmc_violation("deadlock", "channel u
 // config "<M|B|F>:<prog>"
 void pmc_run(const char* config) {
     St st; G = &st; st.kind = config[0];
-    st.prog.parse(config + 2);
+    { std::string pr(config + 2); size_t c = pr.find(':'); if (c != std::string::npos) pr.resize(c); st.prog.parse(pr.c_str()); }
+    bool tso = strstr(config, ":tso") != nullptr;
     // yield_turn 0 / yield_usec 0: go straight to the semaphore wait (the busy-yield phase only delays the interesting part)
     if (st.kind == 'M') st.cm = new ChanM(0, 0); else if (st.kind == 'B') st.cb = new ChanB(0, 0); else st.cf = ChanF::create(2, 0, 0);
     pmc_window(0);
     mv_init(); mvp::use_fast_stacks(true);
+    mv_tso(tso);
     mv_on_deadlock = on_deadlock;
     st.prog.run(body);
     std::vector<int> all;
@@ -82,6 +84,8 @@ static const PmcConfig CFG[] = {
     {"M:yrrr|sss",  2, {1,2}, {0,0}, {0,0}, {0,0}, ""},
     {"B:r|s",       3, {2,3}, {0,0}, {0,0}, {0,0}, "batch ring"},
     {"B:r,r|ss",    3, {1,2}, {0,0}, {0,0}, {0,0}, ""},
+    {"M:r|s:tso",   3, {2,2}, {0,0}, {1,2}, {3,3}, "the Dekker window under x86-TSO: the seq_cst fence in send() and the seq_cst RMW in recv() must close it"},
+    {"M:r|@s:tso",  3, {2,2}, {0,0}, {1,2}, {3,3}, ""},
     {"F:r|s",       3, {2,3}, {0,0}, {0,0}, {0,0}, "FlexRingChannel"},
     {"F:rrr|sss",   3, {1,2}, {0,0}, {0,0}, {0,0}, ""},
     {"F:r,r|s|@s",  2, {1,2}, {0,0}, {0,0}, {0,0}, ""},
